@@ -15,6 +15,13 @@ use std::time::{Duration, Instant};
 
 pub const DEFAULT_SEED: u64 = 20260926;
 
+/// JSON in, without serde_json's nesting limit: a deeply nested generated program is a deeply nested value
+pub fn from_json<T: serde::de::DeserializeOwned>(text: &str) -> Result<T, serde_json::Error> {
+    let mut de = serde_json::Deserializer::from_str(text);
+    de.disable_recursion_limit();
+    T::deserialize(&mut de)
+}
+
 fn home() -> PathBuf {
     PathBuf::from(std::env::var("VERIF_HOME").unwrap_or_else(|_| "/verif".into()))
 }
@@ -57,6 +64,19 @@ pub fn main(args: &[String]) -> i32 {
         "determinism" => determinism(&args[1..]),
         "fidelity" => fidelity(&args[1..]),
         "show" => show(&args[1], args[2].parse().unwrap()),
+        "parse-report" => {
+            // debugging aid: does a worker's report line deserialize?
+            let text = std::fs::read_to_string(&args[1]).unwrap_or_default();
+            for line in text.lines() {
+                if let Some(rest) = line.strip_prefix("R ") {
+                    match from_json::<WorkerReport>(rest) {
+                        Ok(r) => println!("ok: {} violations", r.violations.len()),
+                        Err(e) => println!("ERROR: {}", e),
+                    }
+                }
+            }
+            0
+        }
         "fingerprints" => {
             for t in props::c13::TEMPLATES {
                 println!("C13 {} fingerprint={:016x}", t, props::c13::template(t).fingerprint());
@@ -271,7 +291,7 @@ fn run_index_forked(p: &dyn Prop, idx: u64, seed: u64, tier: Tier) -> Result<Ind
     unsafe { libc::close(fds[0]) };
     let mut status = 0i32;
     unsafe { libc::waitpid(pid, &mut status, 0) };
-    let mut rep: IndexReport = serde_json::from_slice(&buf).map_err(|e| format!("child for index {} died (status {}): {}", idx, status, e))?;
+    let mut rep: IndexReport = from_json(&String::from_utf8_lossy(&buf)).map_err(|e| format!("child for index {} died (status {}): {}", idx, status, e))?;
     let [a, b, c, dd] = std::mem::take(&mut rep.sets);
     rep.stats.interleavings = a.into_iter().collect();
     rep.stats.histories = b.into_iter().collect();
@@ -316,7 +336,7 @@ fn run_workers(id: &str, tier: Tier, seed: u64, nw: usize, listing: bool) -> Mer
                 if let Some(rest) = line.strip_prefix("I ") {
                     *beat.lock().unwrap() = (Instant::now(), rest.to_string());
                 } else if let Some(rest) = line.strip_prefix("R ") {
-                    if let Ok(r) = serde_json::from_str::<WorkerReport>(rest) {
+                    if let Ok(r) = from_json::<WorkerReport>(rest) {
                         reps.lock().unwrap().push(r);
                     }
                 }
@@ -519,7 +539,7 @@ fn shrink_in_child(p: &dyn Prop, v: &Violation, seed: u64) -> Violation {
     unsafe { libc::close(fds[0]) };
     let mut status = 0i32;
     unsafe { libc::waitpid(pid, &mut status, 0) };
-    serde_json::from_slice::<Violation>(&buf).unwrap_or_else(|_| v.clone())
+    from_json::<Violation>(&String::from_utf8_lossy(&buf)).unwrap_or_else(|_| v.clone())
 }
 
 fn write_replay(v: &Violation, minimised: bool, original_ops: usize) -> PathBuf {
@@ -568,7 +588,7 @@ pub fn replay(file: &str) -> i32 {
             return 2;
         }
     };
-    let doc: serde_json::Value = serde_json::from_str(&text).expect("replay file is JSON");
+    let doc: serde_json::Value = from_json(&text).expect("replay file is JSON");
     let prop = doc["property"].as_str().unwrap_or("");
     let p = match props::get(prop) {
         Some(p) => p,
@@ -577,7 +597,7 @@ pub fn replay(file: &str) -> i32 {
             return 2;
         }
     };
-    let case: crate::case::Case = serde_json::from_value(doc["case"].clone()).expect("case");
+    let case: crate::case::Case = from_json(&doc["case"].to_string()).expect("case");
     let sched: crate::sched::SchedSpec = serde_json::from_value(doc["schedule"].clone()).expect("schedule");
     let mut rt = Rt::new();
     match p.judge_one(&Arc::new(case), &sched, &mut rt) {
